@@ -14,6 +14,8 @@ ran = []
 try:
     subprocess.run(["rsync", "-a", "--exclude", ".git", "/repo/", scratch + "/"], check=True)
     r = subprocess.run(["git", "apply", "--whitespace=nowarn", patch], cwd=scratch, capture_output=True, text=True)
+    if r.returncode:   # the tree moved on since the change was written (repairs in /repo): retry with fuzz
+        r = subprocess.run(["patch", "-p1", "-F3", "--no-backup-if-mismatch", "-i", patch], cwd=scratch, capture_output=True, text=True)
     ran.append(f"git apply patch.diff (scratch copy of /repo HEAD): rc={r.returncode}")
     if r.returncode:
         print("patch does not apply:", r.stderr); sys.exit(1)
